@@ -164,11 +164,14 @@ def run_once(case):
         out = real(value)
         try:
             hash(out)
-            a, b = canon2(value), canon2(out)
-            if not any(pv.pv_equal(a, x) and pv.pv_equal(b, y) for x, y in log):
-                log.append([a, b])
+            hashable = True
         except TypeError:
-            pass
+            hashable = False
+        if is_cyclic(out):
+            return out
+        a, b = canon2(value), canon2(out)
+        if not any(pv.pv_equal(a, x) and pv.pv_equal(b, y) for x, y, _ in log):
+            log.append([a, b, hashable])
         return out
     ctx2.get_formatted_value = logged
     res2 = call(case, ctx2, inc2)
